@@ -300,16 +300,22 @@ def body(chk, db, cfgname):
         def wanted(Fk):
             return [("op", "[]", Fk, ("op", "[]", perm, ("lit", i))) for i in range(3)]
         good = False
+        tolbad = False
         if rk[0] == "op" and rk[1] == "+":
             parts_ = [rk[2], rk[3]]
             nr = [x for x in parts_ if x[0] == "op" and x[1] == "()" and x[2] == fld(P + "::NonResonantTerms")]
             rs = [x for x in parts_ if x[0] == "op" and x[1] == "()" and x[2] == fld(P + "::ResonantTerms")]
             if len(nr) == 1 and len(rs) == 1:
                 for Fk in (Fq, Fq2):
-                    if list(nr[0][3:6]) == wanted(Fk) and list(rs[0][3:6]) == wanted(Fk) and rs[0][6] == fld(P + "::ReduceResonanceTolerance"):
-                        good = True
+                    if list(nr[0][3:6]) == wanted(Fk) and list(rs[0][3:6]) == wanted(Fk):
+                        if len(rs[0]) > 6 and rs[0][6] == fld(P + "::ReduceResonanceTolerance"):
+                            good = True
+                        else:
+                            tolbad = True
         if good:
             r4.ok(site, f.loc(), "NonResonantTerms(F[perm0],F[perm1],F[perm2]) + ResonantTerms(..., ReduceResonanceTolerance) with F = (z1, z2, -z3)", cfgname)
+        elif tolbad:
+            r4.bad(site, f.loc(), "the resonant terms are not evaluated with the part's ReduceResonanceTolerance (the default of the term list is 1e-16): nearly degenerate levels are treated as non-resonant and divided by their tiny splitting: %s" % (f.s(f.nodes[rets[0]]["sub"])[:100]), cfgname)
         else:
             r4.bad(site, f.loc(), "the part is not evaluated at the permuted frequencies (z1, z2, -z3)[perm[k]] in both term lists: got %s" % (f.s(f.nodes[rets[0]]["sub"])[:80]), cfgname)
     # operator selection by permutation (three switch functions)
